@@ -128,6 +128,8 @@ type World struct {
 	gateMu   sync.Mutex // serialises nested (gate) steps with the end of the outer call
 	active   int        // call id of the API call the actor is currently inside (0 = none)
 	ReadErrs int
+	// Auditor resolves leftovers and reads the truth in Finish (default: the last client)
+	Auditor *Client
 	// number of traced RPCs the last DrainArmed commit issued (synchronous + background)
 	LastCallRPCs     int
 	LastCallSyncRPCs int                           // of which issued before Commit returned
@@ -567,6 +569,9 @@ func (w *World) Finish() (*Truth, error) {
 	}
 	w.Cl.Drain(3*time.Millisecond, 3*time.Second)
 	aud := w.Cl.Clients[len(w.Cl.Clients)-1]
+	if w.Auditor != nil {
+		aud = w.Auditor
+	}
 	w.Cl.Expire()
 	if err := w.ResolveAll(aud); err != nil {
 		return nil, err
